@@ -345,12 +345,12 @@ func (c *C15Case) Display() any {
 func init() {
 	ev.Register(&ev.Prop{
 		ID:    "C15",
-		Rule:  "grammar-complete generator (every alternative of every rule, any value expression wherever the grammar allows one, nesting to a bound, list widths 0-4; integer literals within 64 bits and no zero denominators, which C14/C12 own) x the canonical layout and a random layout (spaces, tabs, LF, CRLF, line and block comments incl. nested and non-ASCII ones between any two tokens, the reference lexer deciding which separators keep the token stream intact); oracle: the real tree, converted node by node, equals the generator's tree in structure, literal values and in the range of every range-carrying node (spans recorded by the printer, in code points), under both layouts; self-check: the reference parser reads the text back to the same tree; non-trivial = >= 3 distinct constructs and a non-canonical layout, or a non-ASCII character before a node's end",
+		Rule:  "grammar-complete generator (every alternative of every rule, any value expression wherever the grammar allows one, nesting to a bound, list widths 0-4; integer literals within 64 bits, which C14 owns) x the canonical layout and a random layout (spaces, tabs, LF, CRLF, line and block comments incl. nested and non-ASCII ones between any two tokens, the reference lexer deciding which separators keep the token stream intact); oracle: the real tree, converted node by node, equals the generator's tree in structure, literal values and in the range of every range-carrying node (spans recorded by the printer, in code points), under both layouts; self-check: the reference parser reads the text back to the same tree; non-trivial = >= 3 distinct constructs and a non-canonical layout, or a non-ASCII character before a node's end",
 		New:   func() any { return &C15Case{} },
 		Check: checkC15,
 	})
 	Generators["C15"] = func(t *rapid.T, tier string) any {
-		g := &gen.GG{T: t, MaxDepth: 3, MaxWidth: 4, NoHugeNumbers: true, NoZeroDenominator: true}
+		g := &gen.GG{T: t, MaxDepth: 3, MaxWidth: 4, NoHugeNumbers: true}
 		if tier == "thorough" {
 			g.MaxDepth = 4
 		}
